@@ -27,6 +27,7 @@ def const(c): return {"e": "const", "c": c}
 def assign(targets, e): return {"s": "assign", "targets": targets if isinstance(targets, list) else [targets], "e": e}
 def aug(t, e): return {"s": "aug", "t": t, "e": e}
 def ann(v, tag, e=None): return {"s": "ann", "v": v, "tag": tag, "e": e}
+def annattr(v, a): return {"s": "annattr", "v": v, "a": a}          # 'o.p: int' - an annotation without a value stores nothing
 def expr(e): return {"s": "expr", "e": e}
 def for_(t, k, body, orelse=()): return {"s": "for", "t": t, "k": k, "body": list(body), "orelse": list(orelse)}
 def while_(k, body, orelse=()): return {"s": "while", "k": k, "body": list(body), "orelse": list(orelse)}
@@ -166,6 +167,8 @@ def p_stmt(s, ind, twin):
         if twin:
             out += binds([s["v"]], ind)
         return out
+    if k == "annattr":
+        return [f"{ind}{s['v']}.{s['a']}: int"]
     if k == "expr":
         return [f"{ind}{p_expr(s['e'], twin)}"]
     if k == "for":
